@@ -45,11 +45,12 @@ def norm(v: Any, keep_parseinfo: bool = False) -> Any:
     return v
 
 
-def parse(model, text: str, _keep_parseinfo=None, **settings):
+def parse(model, text: str, _keep_parseinfo=None, _start_policy=False, **settings):
     """-> ('ok', normalised value) | ('fail', exception class name, pos)
           | ('exc', class name, message)   for non-TatSu exceptions"""
     from tatsu.exceptions import FailedParse, ParseException
-    settings = with_start(model, settings)
+    if _start_policy:
+        settings = with_start(model, settings)
     try:
         with contextlib.redirect_stderr(io.StringIO()):
             v = model.parse(text, **settings)
